@@ -552,4 +552,6 @@ def truthy(v: V):
         return z3.Not(v.eq_int(0))
     if isinstance(v, (FuncV, BuiltinV, ClassV, CoroV)) or type(v).__name__ == "ExcV":
         return z3.BoolVal(True)
+    if hasattr(v, "truthy_term"):
+        return v.truthy_term()
     raise Unsupported(f"truthiness of {v!r}")
